@@ -1799,6 +1799,140 @@ func genC04(ctx *hx.Ctx, emit func(hx.Case)) {
 			}
 		}
 	}
+	// 2e. the settings record between calls: calls WITHOUT options get their settings from getValidationOptions'
+	// fallback; RequestBody.Validate / Response.Validate write the example reading (request / response) into the record
+	// they get. Object examples against schemas with writeOnly / readOnly / required properties at the sites whose
+	// examples are checked outside a body (component and operation parameters, `example` and `examples`, by value and
+	// through a schema $ref; response headers), after zero, one or two earlier calls with and without options.
+	{
+		secret := func() map[string]any {
+			return map[string]any{"type": "object", "required": []any{"id", "pw"}, "properties": map[string]any{
+				"id": map[string]any{"type": "string"}, "pw": map[string]any{"type": "string", "writeOnly": true}}}
+		}
+		readback := func() map[string]any {
+			return map[string]any{"type": "object", "required": []any{"id", "ro"}, "properties": map[string]any{
+				"id": map[string]any{"type": "string"}, "ro": map[string]any{"type": "string", "readOnly": true}}}
+		}
+		type objEx struct {
+			name string
+			val  map[string]any
+		}
+		reqVals := []objEx{
+			{"all", map[string]any{"id": "a", "pw": "b"}}, {"no-writeonly", map[string]any{"id": "a"}},
+			{"no-plain", map[string]any{"pw": "b"}}, {"extra", map[string]any{"id": "a", "pw": "b", "more": "c"}}, {"empty", map[string]any{}},
+		}
+		resVals := []objEx{
+			{"all", map[string]any{"id": "a", "ro": "b"}}, {"no-readonly", map[string]any{"id": "a"}}, {"no-plain", map[string]any{"ro": "b"}},
+		}
+		type site struct {
+			name string
+			put  func(d map[string]any, v map[string]any)
+		}
+		firstOp := func(d map[string]any) map[string]any {
+			paths := asMap(d["paths"])
+			keys := make([]string, 0, len(paths))
+			for k := range paths {
+				keys = append(keys, k)
+			}
+			sort.Strings(keys)
+			for _, k := range keys {
+				for _, m := range []string{"get", "put", "post", "delete", "patch"} {
+					if o := asMap(asMap(paths[k])[m]); o != nil {
+						return o
+					}
+				}
+			}
+			return nil
+		}
+		addParam := func(o map[string]any, p map[string]any) {
+			ps, _ := o["parameters"].([]any)
+			o["parameters"] = append(ps, p)
+		}
+		reqSites := []site{
+			{"components.parameter.example", func(d, v map[string]any) {
+				asMap(asMap(d["components"])["parameters"])["Cred"] = map[string]any{"name": "cred", "in": "query", "schema": secret(), "example": v}
+			}},
+			{"components.parameter.examples", func(d, v map[string]any) {
+				asMap(asMap(d["components"])["parameters"])["Cred"] = map[string]any{"name": "cred", "in": "query", "schema": secret(),
+					"examples": map[string]any{"e1": map[string]any{"value": v}}}
+			}},
+			{"operation.parameter.example.ref-schema", func(d, v map[string]any) {
+				asMap(asMap(d["components"])["schemas"])["Secret"] = secret()
+				addParam(firstOp(d), map[string]any{"name": "cred", "in": "query", "schema": map[string]any{"$ref": "#/components/schemas/Secret"}, "example": v})
+			}},
+			{"operation.parameter.examples", func(d, v map[string]any) {
+				addParam(firstOp(d), map[string]any{"name": "cred", "in": "cookie", "schema": secret(),
+					"examples": map[string]any{"e1": map[string]any{"value": v}, "e0": map[string]any{"value": map[string]any{"id": "x", "pw": "y"}}}})
+			}},
+		}
+		firstItem := func(d map[string]any) map[string]any {
+			paths := asMap(d["paths"])
+			keys := make([]string, 0, len(paths))
+			for k := range paths {
+				keys = append(keys, k)
+			}
+			sort.Strings(keys)
+			if len(keys) == 0 {
+				return nil
+			}
+			return asMap(paths[keys[len(keys)-1]])
+		}
+		reqSites = append(reqSites,
+			site{"pathitem.parameter.example", func(d, v map[string]any) {
+				if it := firstItem(d); it != nil {
+					addParam(it, map[string]any{"name": "cred", "in": "header", "schema": secret(), "example": v})
+				}
+			}},
+			site{"operation.parameter.ref-component", func(d, v map[string]any) {
+				asMap(asMap(d["components"])["parameters"])["Cred"] = map[string]any{"name": "cred", "in": "query", "schema": secret(),
+					"examples": map[string]any{"e1": map[string]any{"value": v}}}
+				addParam(firstOp(d), map[string]any{"$ref": "#/components/parameters/Cred"})
+			}},
+		)
+		resSites := []site{
+			{"components.header.example", func(d, v map[string]any) {
+				asMap(asMap(d["components"])["headers"])["Back"] = map[string]any{"schema": readback(), "example": v}
+			}},
+			{"response.header.examples", func(d, v map[string]any) {
+				r := asMap(asMap(asMap(d["components"])["responses"])["Ok"])
+				asMap(r["headers"])["X-Back"] = map[string]any{"schema": readback(), "examples": map[string]any{"e1": map[string]any{"value": v}}}
+			}},
+		}
+		call := func(doc map[string]any, list [][]string) map[string]any {
+			c := c04CaseL(doc, nil, list, "")
+			delete(c, "tag")
+			return map[string]any(c)
+		}
+		baseDoc := func() map[string]any { return deepCopy(base).(map[string]any) }
+		emitSite := func(st site, vals []objEx) {
+			for _, v := range vals {
+				mk := func() map[string]any { d := baseDoc(); st.put(d, deepCopy(v.val).(map[string]any)); return d }
+				if firstOp(baseDoc()) == nil {
+					continue
+				}
+				histories := [][]any{
+					nil,
+					{call(mk(), nil)},
+					{call(baseDoc(), nil)},
+					{call(baseDoc(), [][]string{{"EnableExamplesValidation"}}), call(mk(), nil)},
+					{call(baseDoc(), [][]string{{"DisableExamplesValidation"}})},
+				}
+				for hi, h := range histories {
+					c := c04CaseL(mk(), nil, nil, fmt.Sprintf("record:%s:%s:h%d", st.name, v.name, hi))
+					if h != nil {
+						c["before"] = h
+					}
+					emit(c)
+				}
+			}
+		}
+		for _, st := range reqSites {
+			emitSite(st, reqVals)
+		}
+		for _, st := range resSites {
+			emitSite(st, resVals)
+		}
+	}
 	// 2d. headers that contain themselves (4c7d612): components.headers.H.content.<mt>.encoding.f.headers.X = $ref H,
 	// the variant through an extension target (#/x-h/H), a cycle of two headers, H used from a response; with
 	// violations in the header itself, in its media type, in its encoding object, next to the inner $ref, and under
